@@ -291,6 +291,24 @@ func famCompare(dir string, seed int64, tier string) {
 		pairs = append(pairs, pair{base, append(append([]sb.Token{}, base...), t)}, pair{append(append([]sb.Token{}, base...), t), base})
 	}
 
+	// very long strings and blobs (segments double without bound: every fixed buffer is exceeded somewhere);
+	// compressible payloads, so that the model evaluates them too
+	for _, n := range []int{32760, 32769, 65600, 98296, 100000, 200000} {
+		for _, k := range []sb.Kind{sb.KindString, sb.KindBytes} {
+			mk := func(last byte, extra int) sb.Token {
+				b := bytes.Repeat([]byte{'q'}, n+extra)
+				b[n-1] = last
+				if k == sb.KindString {
+					return sb.Token{Kind: k, Value: string(b)}
+				}
+				return sb.Token{Kind: k, Value: b}
+			}
+			pairs = append(pairs,
+				pair{[]sb.Token{mk('q', 0)}, []sb.Token{mk('q', 0)}},
+				pair{[]sb.Token{mk('a', 0), tokI(1)}, []sb.Token{mk('z', 0)}},
+				pair{[]sb.Token{mk('q', 0)}, []sb.Token{mk('q', 1)}})
+		}
+	}
 	for _, p := range pairs {
 		desc := "a=[" + descTokens(p.a) + "] b=[" + descTokens(p.b) + "]"
 		nan := hasNaNPayload(p.a) || hasNaNPayload(p.b)
